@@ -487,6 +487,9 @@ func allHarnesses() []*vrt.Harness {
 	for _, sc := range cscenarios(true) {
 		hs = append(hs, charness(sc))
 	}
+	for _, sc := range fscenarios(true) {
+		hs = append(hs, fharness(sc))
+	}
 	return hs
 }
 
@@ -529,12 +532,13 @@ func main() {
 func mainT() {
 	vrt.WorkerMain(allHarnesses())
 	run := evid.New("C33", "exploration")
-	run.Rule = "E1(seq): per scenario (1-2 dependencies x 1-2 local origins), ONE controlled thread executes a tag-replication task with the real tagreplication.Executor over the real blobclient.ClusterClient (ReplicateToRemote -> Poll, hard-coded back-off on a virtual clock) up to `attempts` times (stopping at the first nil, as the persisted-retry manager does) and then once more in a closing phase where every answer is ok. Every environment answer is a vrt.Choose: remote build-index Has {truthful, 503}, Origin {ok, 503}, PutAndReplicate {ok, 503, 409, network error, stored but response lost}; each local origin's ReplicateToRemote {ok, 202 then ok, 202 until the back-off stops, 503, 404, network error}. The explorer enumerates every answer sequence with at most `bound` non-default answers. Oracle: whenever PutAndReplicate reaches the remote build-index every dependency has been answered ok by a local origin for that remote origin cluster; Exec returns nil only if the remote build-index holds the tag with the task's digest; the closing Exec returns nil. distinct = distinct outcome classes (per-Exec result class incl. 202 / back-off timeout / origin fall-back flags) per scenario. PART 2, E1q (testing/synctest bubble): 2-3 tasks (two remote clusters A, B and/or two tags, 1-2 dependency blobs) are executed by concurrent real Executor.Exec calls over the real ClusterClient in front of the REAL blobserver.Server (replicate-to-remote requests served by Server.Handler().ServeHTTP, blobs in a real CAStore); seams = each remote origin cluster's UploadBlob (parks while the upload is in flight; on release reads the bytes the origin sends and records that remote origin R holds the blob) and each remote build-index's PutAndReplicate; EVERY order of the actions 'start Exec <task>' and of the parked seams is executed. Oracle: when PutAndReplicate reaches build-index R, remote origin R has really received every dependency blob of that task; Exec nil => build-index R holds the tag; every Exec returns."
+	run.Rule = "E1(seq): per scenario (1-2 dependencies x 1-2 local origins), ONE controlled thread executes a tag-replication task with the real tagreplication.Executor over the real blobclient.ClusterClient (ReplicateToRemote -> Poll, hard-coded back-off on a virtual clock) up to `attempts` times (stopping at the first nil, as the persisted-retry manager does) and then once more in a closing phase where every answer is ok. Every environment answer is a vrt.Choose: remote build-index Has {truthful, 503}, Origin {ok, 503}, PutAndReplicate {ok, 503, 409, network error, stored but response lost}; each local origin's ReplicateToRemote {ok, 202 then ok, 202 until the back-off stops, 503, 404, network error}. The explorer enumerates every answer sequence with at most `bound` non-default answers. Oracle: whenever PutAndReplicate reaches the remote build-index every dependency has been answered ok by a local origin for that remote origin cluster; Exec returns nil only if the remote build-index holds the tag with the task's digest; the closing Exec returns nil. distinct = distinct outcome classes (per-Exec result class incl. 202 / back-off timeout / origin fall-back flags) per scenario. PART 2, E1q (testing/synctest bubble): 2-3 tasks (two remote clusters A, B and/or two tags, 1-2 dependency blobs) are executed by concurrent real Executor.Exec calls over the real ClusterClient in front of the REAL blobserver.Server (replicate-to-remote requests served by Server.Handler().ServeHTTP, blobs in a real CAStore); seams = each remote origin cluster's UploadBlob (parks while the upload is in flight; on release reads the bytes the origin sends and records that remote origin R holds the blob) and each remote build-index's PutAndReplicate; EVERY order of the actions 'start Exec <task>' and of the parked seams is executed. Oracle: when PutAndReplicate reaches build-index R, remote origin R has really received every dependency blob of that task; Exec nil => build-index R holds the tag; every Exec returns. PART 3, E1q: the world of part 2 with (a) the SAME task (same tag, remote, dependency blobs) executed by 2-3 build-index replicas at once (plus: one tag to two remotes; two tags sharing a blob on one remote; thorough: two replicas and a second remote), so that several replicate-to-remote requests for the same (remote, namespace, blob) are inside the real origin handler together, (b) the outcome of every released upload an environment answer {ok; 503, nothing stored; bytes stored but the response is lost}, at most maxFail non-ok answers per execution, (c) 'retry Exec <task>' as a further action for a task whose Exec returned an error (at most maxRetry per task); EVERY order of start/retry actions and parked seams with every outcome is executed, then a closing phase executes every task that has not returned nil once more, alone, without failures. Oracle: when PutAndReplicate reaches build-index R an UploadBlob of every dependency blob of that task to remote origin R has returned success to the local origin (confirmed present); Exec nil => build-index R holds the tag; the closing Exec returns nil; every Exec returns. Vacuity counters: orders in which two requests for the same (remote, namespace, blob) overlapped in the handler, and in which an upload failed during such an overlap."
 	run.Assume("the persisted-retry manager (C30) re-runs a task whose Exec returned an error and drops one whose Exec returned nil: 'retried until the remote holds the tag' is checked as 'Exec returns nil only if the remote holds the tag' + 'with every call succeeding Exec returns nil'")
 	run.Assume("'confirmed present in the remote origin cluster' = some local origin answered 200 to the replicate-to-remote request for that blob and that remote origin cluster, in this or an earlier execution of the task (the fakes never lose a blob)")
 	run.Assume("ClusterClient's Poll back-off is hard-coded: the build overlay redirects the time/backoff imports of cluster_client.go to a process-wide virtual clock, reset per execution (kraken's source is unchanged; the import rewrite is trusted to preserve semantics)")
-	run.Assume("small-scope: part 1 one tag, 1-2 dependencies, 1-2 origins, one remote; part 2 2-3 concurrent tasks, 2 remotes, 1-2 blobs, one local origin, no injected failures; a remote build-index that answers Has never lies")
-	run.Assume("part 2: the HTTP hop between the cluster client and the origin is replaced by a direct Handler().ServeHTTP call (non-200 status -> httputil.StatusError as blobclient.HTTPClient returns it); scheduling granularity = the seam points (upload in flight / released, put in flight / released, task start), code between two seams runs atomically")
+	run.Assume("small-scope: part 1 one tag, 1-2 dependencies, 1-2 origins, one remote; part 2 2-3 concurrent tasks, 2 remotes, 1-2 blobs, one local origin, no injected failures; part 3 2-3 concurrent tasks of which 2-3 may be the same task, 1-2 blobs, 1-3 failing uploads and 0-2 retries per task as named per scenario, only uploads fail; a remote build-index that answers Has never lies")
+	run.Assume("part 3: replicas of one task are interchangeable, replica k+1 is started only after replica k (symmetry reduction); 'confirmed present in remote origin cluster R' = some UploadBlob of that blob to R returned success to the local origin (by any request: blobs are content-addressed and the fakes never lose a blob)")
+	run.Assume("parts 2-3: the HTTP hop between the cluster client and the origin is replaced by a direct Handler().ServeHTTP call (non-200 status -> httputil.StatusError as blobclient.HTTPClient returns it); scheduling granularity = the seam points (upload in flight / released, put in flight / released, task start), code between two seams runs atomically")
 	if p := run.ReplayPath(); p != "" {
 		replay(run, p)
 		return
@@ -636,6 +640,52 @@ func mainT() {
 		cexs[m] = cneed[m]
 	}
 	run.Set("concurrent_orders_by_marker", cexs)
+
+	// part 3 (E1q): overlapping Exec runs of the SAME task (and of tasks sharing
+	// a blob) through the real origin handler, with failing uploads and retries
+	fneed := map[string]int{}
+	fmarkers := []string{"same-key-overlap=true", "fail-in-overlap=true", "failed-uploads=0", "failed-uploads=1", "failed-uploads=2", "503:1", "lost:1", "retried=true", "closing=1", ":error,nil", ":error,error"}
+	for _, sc := range fscenarios(thorough) {
+		h := fharness(sc)
+		for _, ch := range [][]int{nil, {0, 0, 0, 1}, {0, 0, 1, 2, 0, 1}, {0, 1, 0, 1, 1}} {
+			_, o1, _ := vrt.Replay(h, ch)
+			_, o2, _ := vrt.Replay(h, ch)
+			if o1 != o2 {
+				run.Fatal(fmt.Errorf("non-deterministic replay in %s for %v: %q vs %q", h.Name, ch, o1, o2))
+			}
+		}
+		left := int(time.Until(deadline).Seconds())
+		if left < 1 {
+			left = 1
+		}
+		workers := 1
+		if thorough && evid.Workers() > 1 {
+			workers = 4
+		}
+		// bound 64 >= number of steps of any execution: every order and every outcome
+		t0 := time.Now()
+		res := rep.VRT(run, h, 64, workers, left, fp)
+		blocked := 0
+		for k, n := range res.Outcomes {
+			for _, m := range fmarkers {
+				if strings.Contains(k, m) {
+					fneed[m] += n
+				}
+			}
+			if strings.Contains(k, "blocked") || strings.HasPrefix(k, "DEADLOCK") {
+				blocked += n
+			}
+		}
+		if run.NViolations() == 0 && blocked > 0 {
+			run.Fatal(fmt.Errorf("%s: %d orders left an Exec blocked without a violation being reported", h.Name, blocked))
+		}
+		fmt.Printf("  %s: orders=%d outcome classes=%d max steps=%d completed=%v (%.0fs)\n", h.Name, res.Executions, len(res.Outcomes), res.MaxPoints, res.Completed, time.Since(t0).Seconds())
+	}
+	fexs := map[string]int{}
+	for _, m := range fmarkers {
+		fexs[m] = fneed[m]
+	}
+	run.Set("faulty_concurrent_orders_by_marker", fexs)
 	if run.NViolations() == 0 {
 		for _, m := range markers {
 			if need[m] == 0 {
@@ -645,6 +695,11 @@ func mainT() {
 		for _, m := range cmarkers {
 			if cneed[m] == 0 {
 				run.Fatal(errors.New("vacuous: no concurrent order with " + m))
+			}
+		}
+		for _, m := range fmarkers {
+			if fneed[m] == 0 {
+				run.Fatal(errors.New("vacuous: no faulty concurrent order with " + m))
 			}
 		}
 	}
